@@ -57,6 +57,12 @@ macro_rules! subject_1d {
                 let q = q1(&self.x);
                 match op {
                     0..=3 => self.ip.interp(q[op]).map(|a| bits(a.iter())).map_err(|e| e.to_string()),
+                    5 => {
+                        // a long batch (1100 in-range elements): code that treats long batches specially
+                        let n = self.x.len();
+                        let big: Vec<f64> = (0..1100).map(|k| self.x[k % (n - 1)] + 0.37 * (self.x[k % (n - 1) + 1] - self.x[k % (n - 1)])).collect();
+                        self.ip.interp_array(&Array1::from(big)).map(|a| bits(a.iter().take(8))).map_err(|e| e.to_string())
+                    }
                     _ => self.ip.interp_array(&Array1::from(vec![q[1], q[0], q[4]])).map(|a| bits(a.iter())).map_err(|e| e.to_string()),
                 }
             }
@@ -145,12 +151,13 @@ struct Program {
 fn main() {
     let quick = !std::env::args().any(|a| a == "thorough");
     let only: Option<String> = std::env::args().skip_while(|a| a != "--only-key").nth(1);
+    std::env::set_var("SHUTTLE_SILENCE_WARNINGS", "1");
     nimc::driver::install_panic_hook();
     assert!(verif_hooks::install_sched_point(sched_hook));
-    let budget = if quick { 4.0e5 } else { 3.0e7 };
+    let budget = if quick { 4.0e5 } else { 2.0e8 };
     // The number of scheduling points of an op (hooks; atomics are added by the scheduler itself)
     // must be measured inside an execution, because the subject's primitives are shuttle's.
-    let pts: Arc<Mutex<Vec<Vec<u64>>>> = Arc::new(Mutex::new(vec![vec![0; 5]; KINDS.len()]));
+    let pts: Arc<Mutex<Vec<Vec<u64>>>> = Arc::new(Mutex::new(vec![vec![0; 6]; KINDS.len()]));
     {
         let pts = pts.clone();
         shuttle::check_dfs(
@@ -158,7 +165,10 @@ fn main() {
                 COUNTING.with(|c| c.set(true));
                 for kind in 0..KINDS.len() {
                     let w = build(kind);
-                    for op in 0..5 {
+                    for op in 0..6 {
+                        if op == 5 && kind == 2 {
+                            continue;
+                        }
                         POINTS.with(|c| c.set(0));
                         let _ = w.op(op);
                         pts.lock().unwrap()[kind][op] = POINTS.with(|c| c.get());
@@ -176,6 +186,13 @@ fn main() {
         for (a, b) in pairs {
             programs.push(Program { kind, threads: vec![vec![a], vec![b]] });
         }
+        if kind == 0 || kind == 4 {
+            // a 1100-element batch next to an out-of-range query and next to an ordinary query
+            programs.push(Program { kind, threads: vec![vec![5], vec![3]] });
+            if !quick {
+                programs.push(Program { kind, threads: vec![vec![5], vec![1]] });
+            }
+        }
         if kind != 2 {
             programs.push(Program { kind, threads: vec![vec![1], vec![0], vec![2]] });
             if !quick {
@@ -184,11 +201,13 @@ fn main() {
             }
         }
     }
-    let (mut nprog, mut nsched, mut nviol, mut nfull) = (0u64, 0u64, 0u64, 0u64);
+    use std::sync::atomic::{AtomicU64, AtomicUsize, Ordering as AO};
+    let (nprog, nsched, nviol, nfull, capped) = (AtomicU64::new(0), AtomicU64::new(0), AtomicU64::new(0), AtomicU64::new(0), AtomicU64::new(0));
     let t0 = std::time::Instant::now();
     let max_s: f64 = std::env::var("NIMC_C17S_MAX_S").ok().and_then(|s| s.parse().ok()).unwrap_or(if quick { 120.0 } else { 1500.0 });
-    let mut capped = 0u64;
-    for p in &programs {
+    let next = AtomicUsize::new(0);
+    let workers: usize = std::env::var("NIMC_THREADS").ok().and_then(|s| s.parse().ok()).unwrap_or(8);
+    let run_one = |p: &Program| {
         // size of the program: one execution under the default schedule counts every scheduling
         // decision (hook points *and* atomic / lock operations of the subject)
         let steps = Arc::new(std::sync::atomic::AtomicUsize::new(0));
@@ -208,19 +227,21 @@ fn main() {
         let nt = p.threads.len() as u64;
         let seg: Vec<u64> = (0..nt).map(|_| total / nt + 1).collect();
         let est = interleavings(&seg).max(interleavings(&p.threads.iter().map(|ops| ops.iter().map(|&o| pts[p.kind][o]).sum::<u64>() + 2).collect::<Vec<_>>()));
-        let bound = if est <= budget { usize::MAX } else { 2 };
+        // every interleaving when that fits the budget, else every schedule with <= 2 preemptions
+        // (<= 1 for programs with thousands of scheduling points)
+        let bound = if est <= budget { usize::MAX } else if total > 3000 { 1 } else if !quick && total <= 300 { 3 } else { 2 };
         if t0.elapsed().as_secs_f64() > max_s {
-            capped += 1;
-            continue;
+            capped.fetch_add(1, AO::SeqCst);
+            return;
         }
         let key = format!("instr:{}:{:?}:{}", KINDS[p.kind], p.threads, if bound == usize::MAX { "all".to_string() } else { format!("pb{bound}") }).replace(' ', "");
         if let Some(k) = &only {
             if k != &key {
-                continue;
+                return;
             }
         }
         // sequential answers, computed inside an execution
-        let canon: Arc<Mutex<Vec<Option<Out>>>> = Arc::new(Mutex::new(vec![None; 5]));
+        let canon: Arc<Mutex<Vec<Option<Out>>>> = Arc::new(Mutex::new(vec![None; 6]));
         {
             let canon = canon.clone();
             let kind = p.kind;
@@ -265,22 +286,36 @@ fn main() {
                 }
             })
         }));
-        nprog += 1;
+        nprog.fetch_add(1, AO::SeqCst);
         match r {
             Ok(n) => {
-                nsched += n as u64;
+                nsched.fetch_add(n as u64, AO::SeqCst);
                 if bound == usize::MAX {
-                    nfull += 1;
+                    nfull.fetch_add(1, AO::SeqCst);
                 }
             }
             Err(_) => {
-                nviol += 1;
+                nviol.fetch_add(1, AO::SeqCst);
                 let m = first_bad.lock().unwrap().clone().unwrap_or_else(|| "the program panicked or dead-locked under the scheduler".to_string());
                 println!("C17S-VIOLATION key={key} what={}: {m}", KINDS[p.kind]);
             }
         }
-    }
-    println!("C17S-RESULT programs={nprog} every_interleaving={nfull} schedules={nsched} violations={nviol} not_run_because_of_the_time_cap={capped}");
+    };
+    std::thread::scope(|sc| {
+        for _ in 0..workers {
+            sc.spawn(|| loop {
+                let i = next.fetch_add(1, AO::SeqCst);
+                if i >= programs.len() {
+                    break;
+                }
+                run_one(&programs[i]);
+            });
+        }
+    });
+    println!(
+        "C17S-RESULT programs={} every_interleaving={} schedules={} violations={} not_run_because_of_the_time_cap={}",
+        nprog.load(AO::SeqCst), nfull.load(AO::SeqCst), nsched.load(AO::SeqCst), nviol.load(AO::SeqCst), capped.load(AO::SeqCst)
+    );
 }
 
 fn short(o: &Out) -> String {
